@@ -109,7 +109,8 @@ theorem build_spec (es : List Entry) (h20 : ∀ e ∈ es, e.id.length = 20)
       TableOk x.fan x.oidAt x.ids ∧ x.numObjects = some x.ids.length ∧
       (∀ i (h : i < (sortById es).length), x.offsetAt i = some (sortById es)[i].offset) ∧
       x.ofs32.length = es.length ∧ (∀ v ∈ x.ofs32, v < 4294967296) ∧
-      (∀ v ∈ x.ofs64, ∃ e ∈ es, e.offset = v) ∧ x.fan.length = 256 ∧ (∀ v ∈ x.fan, v ≤ es.length) := by
+      (∀ v ∈ x.ofs64, ∃ e ∈ es, e.offset = v) ∧ x.fan.length = 256 ∧ (∀ v ∈ x.fan, v ≤ es.length) ∧
+      fanMonotone x.fan = true ∧ x.ofs64.length ≤ es.length := by
   have hperm := sortById_perm es
   have hlen : (sortById es).length = es.length := hperm.length_eq
   have hs20 : ∀ x ∈ (sortById es).map (·.id), x.length = 20 := by
@@ -126,7 +127,8 @@ theorem build_spec (es : List Entry) (h20 : ∀ e ∈ es, e.id.length = 20)
   have hnot : ¬ (sortById es).length > 4294967295 := by omega
   refine ⟨{ fan := (List.range 256).map (fun b => countLe b (((sortById es).map (·.id)).map hd)),
             ids := (sortById es).map (·.id), crcs := (sortById es).map (·.crc),
-            ofs32 := o32, ofs64 := suffix }, ?_, rfl, rfl, ?_, ?_, ?_, ?_, hob, ?_, by simp, ?_⟩
+            ofs32 := o32, ofs64 := suffix }, ?_, rfl, rfl, ?_, ?_, ?_, ?_, hob, ?_, by simp, ?_,
+            fanMonotone_counts _, ?_⟩
   · simp only [build, hnot, if_false, hfb, hfan, ho1, Option.bind_eq_bind, Option.bind_some,
       List.nil_append]
   · exact {
@@ -153,6 +155,10 @@ theorem build_spec (es : List Entry) (h20 : ∀ e ∈ es, e.id.length = 20)
   · intro v hv
     obtain ⟨b, _, rfl⟩ := List.mem_map.mp hv
     have := countLe_le_length b (((sortById es).map (·.id)).map hd)
+    simp only [List.length_map, hlen] at this
+    exact this
+  · rw [ho3]
+    have := List.length_filter_le (fun o => decide (o > LARGE_OFFSET_THRESHOLD)) ((sortById es).map (·.offset))
     simp only [List.length_map, hlen] at this
     exact this
 
